@@ -1,6 +1,7 @@
 package checks
 
 import (
+	"context"
 	"encoding/json"
 	"fmt"
 	"github.com/cenkalti/backoff/v4"
@@ -21,6 +22,12 @@ import (
 func init() {
 	register(&Check{ID: "C09", Run: func(r *rep.R) { runHist(r, "C09") }, Shards: 16, MinOutcomes: 4})
 	register(&Check{ID: "C10", Run: func(r *rep.R) { runHist(r, "C10") }, Shards: 16, MinOutcomes: 4})
+	Replayers["c10persistreal"] = func(raw json.RawMessage) (string, bool) {
+		var c map[string]string
+		json.Unmarshal(raw, &c)
+		k, msg := c10PersistReal(c["call"])
+		return fmt.Sprintf("%s %s", k, msg), k != ""
+	}
 	Replayers["c10persist"] = func(raw json.RawMessage) (string, bool) {
 		var c c10PersistCase
 		json.Unmarshal(raw, &c)
@@ -434,6 +441,28 @@ func runHist(r *rep.R, prop string) {
 			}
 		}
 	}
+	if prop == "C10" {
+		for _, call := range []string{"sessionless-command", "session-command", "session-close"} {
+			idx++
+			if !r.Mine(idx) {
+				continue
+			}
+			k, msg := c10PersistReal(call)
+			r.Eval(rep.H("persist-real", call), true)
+			r.Trace()
+			if k != "" {
+				// real timers: only what repeats
+				if k2, _ := c10PersistReal(call); k2 != k {
+					r.Count("real_socket_mismatch_not_reproduced", 1)
+					continue
+				}
+				r.Outcome("violation")
+				r.Violate(k, msg, "c10persistreal", map[string]string{"call": call}, nil)
+			} else {
+				r.Outcome("persist:retried-until-the-context-expired")
+			}
+		}
+	}
 	// the same kind of exploration over the library's real transport and a
 	// loopback socket, compared execution by execution with the in-memory model
 	for _, inSess := range []bool{true, false} {
@@ -486,7 +515,7 @@ func runHist(r *rep.R, prop string) {
 		for i := 0; i < nLong; i++ {
 			vlong = append(vlong, []int{opGetDeviceID, opChassisControl, opPowerReading, opSensorReading}[i%4])
 		}
-		histExplore(r, prop, histCfg{Suite: suites[0], InSession: true, Ops: append(vlong, opClose), Horizon: 1, Alphabet: "retry"}, 0, &idx)
+		histExplore(r, prop, histCfg{Suite: suites[0], InSession: true, Ops: append(vlong, opClose), Horizon: 1, Alphabet: "retry", StopOnError: true}, 0, &idx)
 		r.Bound("longest_session_commands", nLong)
 	}
 	r.Assume("after an operation whose context expired the caller continues with a fresh context")
@@ -509,6 +538,10 @@ func histExplore(r *rep.R, prop string, cfg histCfg, bound int, idx *int64) {
 	}
 	e.Check = func(ch *env.Chooser, obs any) {
 		o := obs.(*histObs)
+		cfg := cfg
+		if o.Truncated > 0 {
+			cfg.Ops = cfg.Ops[:o.Truncated]
+		}
 		fs := histJudge(prop, cfg, o)
 		if len(fs) == 0 {
 			r.Outcome(histOutcome(o))
@@ -594,6 +627,54 @@ func c10Persist(c c10PersistCase) (string, string) {
 	}
 	if !clock.Expired {
 		return "C10/persist/gave-up-while-the-context-was-alive/" + c.Call, fmt.Sprintf("%s: the call returned %q after %v of virtual time and %d transmissions, with the caller's context still alive", what, err, clock.Now, len(w.T.Log))
+	}
+	return "", ""
+}
+
+// c10PersistReal: the same persistence question over real sockets and real
+// timers (per-attempt timeout 150 ms, caller's deadline 2.5 s, the stock
+// exponential back-off): while every attempt is answered "node busy" the call
+// must still be trying shortly before its deadline. Only a return well before
+// the deadline is judged (a late one is C13's business), so load can only make
+// this check more lenient.
+func c10PersistReal(call string) (string, string) {
+	backoff.VerifSleep, backoff.VerifNow = nil, nil
+	u, err := newUDPBMC(c13Config())
+	if err != nil {
+		return "C10/persist/harness", err.Error()
+	}
+	defer u.close()
+	conn, err := bmc.DialV2(u.addr(), bmc.WithTimeout(150*time.Millisecond))
+	if err != nil {
+		return "C10/persist/harness", err.Error()
+	}
+	defer conn.Close()
+	var sess *bmc.V2Session
+	if call != "sessionless-command" {
+		if sess, err = conn.NewV2Session(context.Background(), &bmc.V2SessionOpts{SessionOpts: bmc.SessionOpts{Username: "c10", Password: u.bmc.Cfg.Password, MaxPrivilegeLevel: ipmi.PrivilegeLevelUser}, CipherSuites: []ipmi.CipherSuite{ipmi.CipherSuite3}}); err != nil {
+			return "C10/persist/harness", err.Error()
+		}
+	}
+	u.mu.Lock()
+	u.started, u.sendNo, u.c = true, 0, c13Case{Pattern: "temporary-code", Step: 0}
+	u.mu.Unlock()
+	ctx, cancel := context.WithTimeout(context.Background(), 2500*time.Millisecond)
+	defer cancel()
+	start := time.Now()
+	switch call {
+	case "sessionless-command":
+		_, err = conn.GetSystemGUID(ctx)
+	case "session-command":
+		_, err = sess.GetDeviceID(ctx)
+	case "session-close":
+		err = sess.Close(ctx)
+	}
+	took := time.Since(start)
+	if err == nil {
+		return "C10/persist/success-without-valid-response", fmt.Sprintf("[real sockets] %s answered node busy on every attempt returned nil after %v", call, took)
+	}
+	if took < 1500*time.Millisecond {
+		return "C10/persist/gave-up-while-the-context-was-alive/" + call, fmt.Sprintf("[real sockets] %s answered node busy on every attempt (per-attempt timeout 150 ms, stock back-off) returned %q after %v, with a second of its 2.5 s deadline still ahead", call, err, took)
 	}
 	return "", ""
 }
